@@ -246,7 +246,7 @@ def c20_cases(seed, n):
 
 
 def canonical_programs():
-    """two small hand-written mark programs for the model checker: a watcher with `in frame` / plain / `by` forms of both
+    """small hand-written mark programs for the model checker (plus cluster_program()): a watcher with `in frame` / plain / `by` forms of both
     kinds, and a writer placed before resp. after it in house order (same / different values; a second field of out.m is added by the environment)"""
     progs = []
     for order in (["p0", "w0"], ["w0", "p0"]):
@@ -278,7 +278,40 @@ def canonical_programs():
         f1["exit"] = [{"k": "inc", "share": "out.m", "by": 1}]
         prog["frames"][P0], prog["frames"][P1] = f0, f1
         progs.append(prog)
+    progs.append(cluster_program())
     return progs
+
+
+def cluster_program():
+    """several marks of ONE share set on entry to ONE frame: the frame's default mark, `by m`, `by n`, for `is updated`
+    (input in.a, frame wA) and for `is changed` (out.x, frame wB); the share is written before the frame is (re-)entered
+    and not after, so none of the conditions may hold then"""
+    prog = {"tick": 1, "order": ["w0", "p0"], "framers": {}, "frames": {},
+            "shares": {"in.a": 0, "in.b": 0, "out.x": 0}, "inputs": ["in.a", "in.b"], "envvals": {"in.a": [0, 1], "in.b": [0, 1]}}
+    A, B, C = "w0.A", "w0.B", "w0.C"
+    prog["framers"]["w0"] = {"sched": "active", "period": 0, "first": C, "frames": [A, B, C]}
+    fa, fb, fc = gen.frame("w0", "wA"), gen.frame("w0", "wB"), gen.frame("w0", "wC")
+    for f, t in ((fa, "eA"), (fb, "eB"), (fc, "eC")):
+        f["enter"].append(gen.rec(t))
+    go = lambda far, n: {"k": "go", "far": far, "needs": [n], "transit": []}
+    fa["precur"] = [go(B, gen.need("updated", False, share="in.a", frame=A, by="u0", form="name")),
+                    go(B, gen.need("updated", False, share="in.a", frame=A, by="", form="me")),
+                    go(B, gen.need("updated", False, share="in.a", frame=A, by="u1", form="bare")),
+                    go(B, gen.need("recurred", False, op=">=", goal=2))]
+    fb["precur"] = [go(C, gen.need("changed", False, share="out.x", frame=B, by="", form="name")),
+                    go(C, gen.need("changed", False, share="out.x", frame=B, by="c1", form="name")),
+                    go(C, gen.need("changed", False, share="out.x", frame=B, by="c0", form="me")),
+                    go(C, gen.need("recurred", False, op=">=", goal=2))]
+    fc["precur"] = [go(A, gen.need("recurred", False, op=">=", goal=1))]
+    prog["frames"][A], prog["frames"][B], prog["frames"][C] = fa, fb, fc
+    P0, P1 = "p0.P0", "p0.P1"
+    prog["framers"]["p0"] = {"sched": "active", "period": 0, "first": P0, "frames": [P0, P1]}
+    f0, f1 = gen.frame("p0", "pP0"), gen.frame("p0", "pP1")
+    f0["enter"] = [{"k": "put", "share": "out.x", "val": 1}]          # written once, at the start
+    f0["precur"] = [go(P1, gen.need("cmp", False, share="in.b", op="==", goal=1))]
+    f1["enter"] = [{"k": "inc", "share": "out.x", "by": 1}]
+    prog["frames"][P0], prog["frames"][P1] = f0, f1
+    return prog
 
 
 def canonical_cases():
@@ -286,7 +319,10 @@ def canonical_cases():
             {2: [("in.a", 1)], 3: [("in.b", 1)], 4: [("in.b", 0)]},
             {1: [("in.a", 1), ("in.b", 1)], 2: [("out.m", 1, emit.EXTRA)], 3: [("out.m", 1, emit.EXTRA)]},
             {1: [("in.a", 1), ("in.b", 1)], 3: [("out.m", 0, emit.EXTRA)], 4: [("in.b", 1)]}]
-    return [(p, e, 6) for p in canonical_programs() for e in envs]
+    envs.append({1: [("in.a", 1)], 6: [("in.b", 1)]})
+    def fit(p, e):      # only the writes into shares the program has
+        return {n: [w for w in ws if w[0] in p["shares"]] for n, ws in e.items()}
+    return [(p, fit(p, e), 9 if "w0.C" in p["frames"] else 6) for p in canonical_programs() for e in envs]
 
 
 def trace_coverage(ctx, traces):
